@@ -26,7 +26,7 @@ PCall == {"argsArray", "argsString", "argsNull", "argsMissing",
 PClasses(m) ==
   CASE m = "tools/call" -> PCommon \cup PKeyed \cup PCall \cup {"keyEmpty"}
     [] m = "prompts/get" -> PCommon \cup PKeyed \cup {"argsArray", "h:error", "h:nil"}
-    [] m = "resources/read" -> PCommon \cup PKeyed \cup {"h:error", "h:nil"}
+    [] m = "resources/read" -> PCommon \cup PKeyed \cup {"argsArray", "argsString", "h:error", "h:nil"}
     [] m = "initialize" -> PCommon \cup {"keyMissing", "keyNumber", "keyNull"}
     [] OTHER -> PCommon
 
